@@ -64,6 +64,23 @@ theorem truncationErrors_getLast (ws : List Rat) (h : ws ≠ []) : (truncationEr
   have : ws.length - 1 + 1 = ws.length := by omega
   rw [this, List.drop_length]; rfl
 
+theorem getLast?_of_getLastD (l : List Rat) (h : l ≠ []) : l.getLast? = some (l.getLastD 0) := by
+  cases l with
+  | nil => exact absurd rfl h
+  | cons x xs => simp [List.getLast?_cons, List.getLastD_cons]
+
+/-- `cumulative_error_sum[-1]` is the total weight -/
+theorem cumsum_getLast (ws : List Rat) (h : ws ≠ []) : (cumsum ws).getLast? = some ws.sum := by
+  have hne : cumsum ws ≠ [] := by
+    intro h0
+    have := congrArg List.length h0
+    unfold cumsum at this
+    rw [cumsumFrom_length] at this
+    exact h (List.length_eq_zero_iff.mp this)
+  rw [getLast?_of_getLastD _ hne]
+  unfold cumsum
+  rw [cumsumFrom_getLastD 0 ws h]; simp
+
 /-- `argmaxTrue` returns the first `true`, if there is one -/
 theorem argmaxTrue_spec : ∀ (bs : List Bool), bs.any id = true →
     bs[argmaxTrue bs]? = some true ∧ ∀ j, j < argmaxTrue bs → bs[j]? = some false := by
